@@ -12,8 +12,13 @@ SPEC = {
             "(hash of base contents + op list) that iterate over a range containing a shadowed or deleted base key",
     "jobs": [
         Job("store", "database", "^TestVerifC13Store$", shards=(4, 16)),
+        Job("chain", "verifsim", "^TestVerifC13Chain$", shards=(8, 16), timeout=(900, 3600)),
     ],
-    "floors": {"op_iter_reverse": 100, "op_batch_written": 100, "op_batch_abandoned": 50, "iter_over_touched_base_key": 100},
-    "assumptions": ["reference store = tm-db MemDB pre-loaded with the base contents",
+    "floors": {"op_iter_reverse": 100, "op_batch_written": 100, "op_batch_abandoned": 50, "iter_over_touched_base_key": 100,
+               "activity:ValidateBlock": 50, "activity:ProposeBlock": 100, "activity:ForCheck+writes+Precommit+Commit": 100,
+               "activity:ValidateSubChain(ForCheckWithOverwrite)": 100, "activity:Readonly-queries": 100, "historical_reads": 5000,
+               "pruned_height_reads": 500, "reads_after_reorg": 40},
+    "parallel": 16,
+    "assumptions": ["chain part: ProposeBlock may write its tx-applying log / black list (node database, not canonical state): only state-tree keys are compared for it", "reference store = tm-db MemDB pre-loaded with the base contents",
                     "no writes while an iterator is open (tm-db MemDB iterators hold a read lock)"],
 }
